@@ -85,3 +85,60 @@ func TestPadding(t *testing.T) {
 		t.Fatal("PadOK too lenient")
 	}
 }
+
+// TestOpenSSHEncryptedFiles: files ssh-keygen 9.2 encrypted ("-p -N 'kat pass'" with the
+// default aes256-ctr, with -Z aes256-cbc, and an RSA key with -a 3 rounds) decrypt under the
+// model (bcrypt_pbkdf reference + AES) to the very key of the unencrypted original; a wrong
+// passphrase gives differing check-ints; re-encrypting with the same salt reproduces the file.
+func TestOpenSSHEncryptedFiles(t *testing.T) {
+	for _, c := range []struct{ enc, plain, pass, cipher string }{
+		{"ed-ctr", "ed", "kat pass", "aes256-ctr"}, {"ed-cbc", "ed", "kat pass", "aes256-cbc"}, {"rsa-a3", "rsa", "x", "aes256-ctr"},
+	} {
+		text, err := os.ReadFile("testdata/" + c.enc)
+		if err != nil {
+			t.Fatal(err)
+		}
+		bin, _ := Dearmor(text)
+		f, err := ParseFile(bin)
+		if err != nil || f.Cipher != c.cipher || f.KDF != "bcrypt" {
+			t.Fatal(c.enc, err, f)
+		}
+		sec, err := Decrypt(f, []byte(c.pass))
+		if err != nil {
+			t.Fatal(c.enc, err)
+		}
+		s, err := ParseSection(sec)
+		if err != nil {
+			t.Fatal(c.enc, "decrypted section does not parse: ", err)
+		}
+		if err := WellFormedEncrypted(f, s); err != nil {
+			t.Fatal(c.enc, err)
+		}
+		if err := Consistent(f, s); err != nil {
+			t.Fatal(c.enc, err)
+		}
+		ptext, _ := os.ReadFile("testdata/" + c.plain)
+		pbin, _ := Dearmor(ptext)
+		pf, _ := ParseFile(pbin)
+		ps, _ := ParseSection(pf.Priv)
+		if s.Comment != ps.Comment || len(s.Fields) != len(ps.Fields) {
+			t.Fatal(c.enc, "comment or field count differs")
+		}
+		for i := range s.Fields {
+			if !bytes.Equal(s.Fields[i], ps.Fields[i]) {
+				t.Fatal(c.enc, "field", i, "differs from the unencrypted original")
+			}
+		}
+		if w, err := Decrypt(f, []byte(c.pass+"?")); err == nil {
+			if ws, err := ParseSection(w); err == nil && ws.Check1 == ws.Check2 {
+				t.Fatal(c.enc, "wrong passphrase not noticed")
+			}
+		}
+		k, _ := KeyOf(s)
+		salt, rounds, _ := ParseKDFOptions(f.KDFOpts)
+		again, err := NewEncryptedFile(k, s.Comment, s.Check1, f.Cipher, []byte(c.pass), salt, rounds)
+		if err != nil || !bytes.Equal(again.Bytes(), bin) {
+			t.Fatal(c.enc, "re-encryption differs from the ssh-keygen file")
+		}
+	}
+}
